@@ -1,5 +1,6 @@
 (* Extraction of the proved monitor and of the L2 resource machine. ExtrOcamlBasic only. *)
 From Coq Require Import ZArith List Extraction ExtrOcamlBasic.
+From C03 Require Effects7.
 From C03 Require Monitor Effects Effects2 Effects2Proofs Effects3 Effects4 Effects5 Effects6 PoolConcC09.
 Separate Extraction
   Monitor.mon_check Monitor.mon_diag Monitor.accepts
@@ -9,5 +10,5 @@ Separate Extraction
   Effects2.merge_scn Effects2.move_scn Effects2.dt_copy_then_destroy Effects2.hmm_ctor_then_destroy Effects2.pools_scn Effects2Proofs.rows_init
   Effects3.sa_ctor_then_destroy Effects3.hs_history Effects3.hs_history_auto Effects3.open2n2_capacity
   Effects4.tsn_copy_then_destroy Effects4.first_insert_scn
-  Effects5.sa2_ctor_then_destroy Effects6.migrate_then_destroy Effects6.dt_history Effects6.dt_step Effects6.merge_refill_scn Effects6.migrate_block_then_destroy Effects.p_alloc
+  Effects5.sa2_ctor_then_destroy Effects6.migrate_then_destroy Effects6.dt_history Effects6.dt_step Effects6.merge_refill_scn Effects6.migrate_block_then_destroy Effects.p_alloc Effects7.insertion Effects7.h23_script Effects7.h23_state Effects7.esz_std Effects7.grow_dbl
   PoolConcC09.Allocate PoolConcC09.Deallocate PoolConcC09.MergeFrom PoolConcC09.DeallocateAll PoolConcC09.empty_world PoolConcC09.flush.
